@@ -16,13 +16,15 @@ import os
 import codeclab
 import gen_tables
 import jsonlab
+from checks import c02_lines
 import modelgen
 import vlib
 from checks.c01 import _files, _errclass
 
 THEOREMS = ["Yardl.C02.json_round_trip", "Yardl.C02.untagged_case_is_recovered", "Yardl.C02.json_type_is_announced",
             "Yardl.C02.prim_kinds_sound", "Yardl.C02.prim_kinds_match_source", "Yardl.C02.nested_optional_collapses",
-            "Yardl.C02.flags_value_outside_declared_bits_is_a_number"]
+            "Yardl.C02.flags_value_outside_declared_bits_is_a_number", "Yardl.C02.compound_kinds_match_source",
+            "Yardl.C02.compound_kinds_table_complete", "Yardl.C02.ndjson_lines_are_read_back", "Yardl.C02.ndjson_required_step_missing_is_error"]
 
 
 def run(report, tier, seed):
@@ -96,6 +98,9 @@ def exercise(report, lab, lean, n_sets, seed, prop, langs=None):
                 out = lab.tmp(".cpp.bin")
                 rc, err = lab.run_cpp(pname, "j", "b", jinp, out, bufs)
                 judge_reader(report, lab, lean, pname, pj, vals, "cpp", rc, err, out, dict(ctx, bufsizes=bufs), jinp)
+            if k == 0 and len(pj) >= 2:
+                # the step reader against its model on valid and mutated line sequences (one value set per protocol)
+                c02_lines.line_sequences(report, lab, lean, pname, pj, vals, lines, g.rng, seed, langs)
             if "py" in langs:
                 o1, o2 = lab.tmp(".py.ndjson"), lab.tmp(".py.bin")
                 pyjobs.append({"proto": pname, "infmt": "b", "outfmt": "j", "in": binp, "out": o1})
